@@ -3,6 +3,7 @@ package escheck
 import (
 	"context"
 	"fmt"
+	"math"
 	"runtime"
 	"strings"
 	"sync"
@@ -43,6 +44,22 @@ var terminators = []struct{ name, src string }{
 	{"loop-1e4", `var s = 0; for (var i = 0; i < 10000; i++) { s += i; } return {s: s};`},
 	{"emit", `_.out({x: 1}); return _.bindings;`},
 	{"throws", `throw new Error("boom");`},
+	// executions that end before the script starts (the bindings cannot
+	// be prepared for it) or while its result is taken over
+	{"bindings:nan", `return _.bindings;`},
+	{"bindings:inf-nested", `return {};`},
+	{"returns-nan", `return {x: 0/0};`},
+	{"syntax-error", `return {;`},
+}
+
+func finisherBindings(name string) match.Bindings {
+	switch name {
+	case "bindings:nan":
+		return match.Bindings{"bad": math.NaN()}
+	case "bindings:inf-nested":
+		return match.Bindings{"a": map[string]interface{}{"b": []interface{}{math.Inf(1)}}}
+	}
+	return match.Bindings{}
 }
 
 type TimeoutCase struct {
@@ -245,7 +262,7 @@ func checkTimeout(c TimeoutCase) (v ev.Verdict) {
 		go func(fi int) {
 			defer wg.Done()
 			<-start
-			interp.Exec(parent, match.Bindings{}, nil, terminators[fi].src, nil)
+			interp.Exec(parent, finisherBindings(terminators[fi].name), nil, terminators[fi].src, nil)
 		}(fi)
 	}
 	close(start)
